@@ -1,6 +1,7 @@
 import DymVerif.Driver.Common
 import DymVerif.Model.Core
 import DymVerif.Model.CoreGenesis
+import DymVerif.Model.CorePackets
 namespace DymVerif.Driver.Core
 open DymVerif DymVerif.Core DymVerif.Driver
 
@@ -84,14 +85,6 @@ def updClass : Err → String
   | .badRoot => "badRoot"
   | _ => "other"
 
-/-- a pending delayed packet as the Core protocol sees it: rollapp, proof height, sequence, kind -/
-structure Pk where
-  ra : Nat
-  ph : Nat
-  seq : Nat
-  t : String
-  deriving Inhabited, BEq
-
 structure DState where
   st : St
   nActors : Nat
@@ -100,16 +93,6 @@ structure DState where
       the fork hooks are told the effective fork height = new revision start − 1) -/
   pkts : List Pk := []
   deriving Inhabited
-
-def revStart (r : Rollapp) : Nat := match r.revs.getLast? with | some x => x.2 | none => 0
-
-/-- delayedack `OnHardFork` after an M-Core step: for every rollapp that got a new revision, the
-    pending packets with proof height ≥ the new revision's start height are reverted -/
-def prunePkts (before after : St) (pk : List Pk) : List Pk :=
-  pk.filter fun p =>
-    match after.ras.find? (fun r => r.id == p.ra), before.ras.find? (fun r => r.id == p.ra) with
-    | some ra', some ra => !(decide (ra'.revs.length > ra.revs.length) && decide (p.ph ≥ revStart ra'))
-    | _, _ => true
 
 def pkLt (a b : Pk) : Bool :=
   if a.ra != b.ra then a.ra < b.ra else if a.ph != b.ph then a.ph < b.ph else if a.seq != b.seq then a.seq < b.seq else a.t < b.t
